@@ -153,8 +153,9 @@ Example monitor_rejects_uncharged_scope :
 Proof. vm_compute. discriminate. Qed.
 
 (* ---- p2p/host/blank (anchor; not part of the model) --------------------------- *)
-(* the two traces the blank-host probe records on the unchanged tree, judged by
-   the property monitor: BlankHost ignores the error of Stream.SetProtocol.
+(* the two traces the blank-host probe recorded before /repo commit e4bf9e3, judged by
+   the property monitor: BlankHost ignored the error of Stream.SetProtocol (the probe
+   is a fixed corpus case of every run; these are the traces a regression produces).
    Listener side: scope of protocol 5 at its limit (0), the handler still runs,
    its stream reports no protocol (-1) and the listener's scope is not charged. *)
 Example blank_host_listener_trace_rejected :
